@@ -332,7 +332,8 @@ func (f *n3lFam) Exec(r *hx.Run, op []string) string {
 			cstates.GenRawStorageItem(neo3_state_manager.SerializeStringArray(strs)))
 		return "ok"
 	case "nmsg3":
-		if len(op) != 4 {
+		rootByte, okr := neoRootVariant(op, 4)
+		if !okr {
 			return "bad-op"
 		}
 		idx, err := strconv.ParseUint(op[1], 10, 32)
@@ -340,7 +341,7 @@ func (f *n3lFam) Exec(r *hx.Run, op []string) string {
 		if err != nil || !ok2 {
 			return "bad-op"
 		}
-		msg := &neo3legacy.NeoCrossChainMsg{StateRoot: &mpt.StateRoot{Version: 0, Index: uint32(idx), RootHash: "0x" + strings.Repeat("22", 32)}}
+		msg := &neo3legacy.NeoCrossChainMsg{StateRoot: &mpt.StateRoot{Version: 0, Index: uint32(idx), RootHash: "0x" + strings.Repeat(rootByte, 32)}}
 		unsigned, err := msg.GetMessage(n3lMagic)
 		if err != nil {
 			panic(err)
@@ -470,6 +471,7 @@ func (f *n3lFam) genMsg(r *hx.Run) {
 			r.Nontrivial(fmt.Sprintf("%d/exact/other-script/%s", n, res))
 			res = r.Do(fmt.Sprintf("nmsg3 %d - -", idx+4))
 			r.Nontrivial(fmt.Sprintf("%d/empty/no-witness/%s", n, res))
+			neoAlteredReplays(r, "nmsg3", n, idx+10, m, ks, cons, neoDescOf(neoConsM(len(ks2)), ks2), sigs2)
 			if n > 1 {
 				perm := append([]int{}, ks...)
 				perm[0], perm[1] = perm[1], perm[0]
